@@ -39,6 +39,13 @@ CHECKS.update({
                  "abandonment at every event index of every bounded behaviour x 4 mechanisms; selector closure observed through a logging subclass of lomond's selector class."),
     "C15": _sess("Mon_C15", "poll spacing in [p, 2p], automatic pings per period, Unresponsive iff silence > t (noticed within p), forced disconnect in [tc+c, tc+c+p], never with 0/None",
                  "parameter grid of 8 (quick) / 48 (thorough) (poll, ping_rate, ping_timeout, close_timeout) combinations x all histories of <= 4 time-outs and <= 2 arrivals on an integer tick grid, application close at Ready or any Poll, permanent silence; closes issued before Ready are outside the stated scope."),
+    "C05": {"technique": _T % "Mon_C05" + "; the UTF-8 automaton of spec/Utf8.tla is checked by TLC against Table 3-7 and its complete transition table is bound to the real validator row by row",
+            "level_text": "TLC checks spec/Utf8.tla (automaton accepts iff well-formed per Table 3-7, dead iff no continuation exists, decode inverts encode) over all sequences "
+                          "of boundary bytes up to length 3/4 and prints the complete 9x256 transition table; every row x distinguishing suffixes is run through the real "
+                          "Utf8Validator (whole, bytewise, split), which is exhaustive over the validator's reachable states x all 256 next bytes; message level: TLC-generated "
+                          "scenarios (every malformed/well-formed class x every fragmentation x reads) replayed into the real code and judged by Mon_C05 in TLC, incl. the "
+                          "fail-fast clause on byte offsets.",
+            "level_note": _NOTE + "Table comparison (spec automaton row vs real validator verdict) is a lookup in Python against the TLC-printed table. Fail-fast demanded only without permessage-deflate."},
     "C14": _sess("Mon_C14", "pongs = answerable pings (payload, order, multiplicity), each written before its Ping event; none with auto_pong off; failing pong writes do not disturb the event stream (twin run)",
                  "<= 3 (quick) / 4 frames incl. 125-byte all-byte-values ping blobs, several items per read, application send/close reactions, failing writes."),
 })
